@@ -139,7 +139,8 @@ def parseEnv (toks : List String) : Option Env := do
     | none => some (some true) | some "ok" => some (some true) | some "invalid" => some (some false)
     | some "fail" => some none | _ => none
   let down := (kv toks "down").map (· != "0") |>.getD false
-  pure { evOk := evok, owners := owners, verdict := verdict, auth := auth, directOk := direct, down := down }
+  let handover := (kv toks "handover").map (· != "0") |>.getD true
+  pure { evOk := evok, owners := owners, verdict := verdict, auth := auth, directOk := direct, down := down, handoverOk := handover }
 
 def parseAclType : String → Option AclType
   | "join" => some .join | "publish" => some .publish | "read" => some .read | _ => none
